@@ -86,6 +86,15 @@ pub fn adss_bases() -> Vec<(String, Vec<u8>)> {
     let s = super::c05::adss_share(*t, &prbytes(i as u64, *ml), &prbytes(100 + i as u64, *rl)).expect("adss share");
     v.push((format!("adss t={} |M|={} |R|={}", t, ml, rl), s.to_bytes()));
   }
+  // the same layout with another number of y values in the inner Shamir chunk (0, 2, 3): lengths consistent,
+  // every element in range - well-formed per the layout although no dealer of this library produces them
+  if let Some(base) = v.first().and_then(|b| rm::parse_adss(&b.1)) {
+    for k in [0usize, 2, 3] {
+      let mut p = base.clone();
+      p.s.y = (0..k).map(|i| if i == 0 { base.s.y[0].clone() } else { rm::big(1u128 << (40 * i)) + rm::big(i as u128) }).collect();
+      v.push((format!("adss t=2 |M|=32 |R|=32 with {} y values", k), rm::print_adss(&p)));
+    }
+  }
   v
 }
 pub fn report_bases() -> Vec<(String, Vec<u8>)> {
@@ -95,6 +104,11 @@ pub fn report_bases() -> Vec<(String, Vec<u8>)> {
     getrandom::verif::reset(0x4E9 + i as u64);
     let r = gen_report(m, e, *t, &local_randomness(m, e, *t), aux).expect("report");
     v.push((format!("report |m|={} t={} aux={:?}", m.len(), t, aux.as_ref().map(|a| a.len())), r.to_bytes()));
+  }
+  if let Some(base) = v.first().and_then(|b| rm::parse_report(&b.1)) {
+    let mut r = base.clone();
+    r.share.s.y.push(rm::big(77));
+    v.push(("report |m|=1 t=2 whose share carries 2 y values".into(), rm::print_report(&r)));
   }
   v
 }
@@ -377,7 +391,7 @@ pub fn spec() -> PropSpec {
       Check { name: "roundtrip-shamir", rule: "Shamir shares with 0..12, 15..17, 20, 31..33 y over extreme element values: layout and round trip", gen: |_| vec![json!({})], run: run_roundtrip_shamir, min_counts: &[("evaluations", 20)] },
       Check {
         name: "single-faults",
-        rule: "13 annotated base encodings (Shamir share with 0,1,2 y and a partial element; 4 adss shares; 3 reports; chunk; u32) x {every prefix, every length/threshold field x 21 boundary values, every 24-byte element replaced by p-1,p,p+1,2^192-1,0, every offset x 5 byte faults, garbage of 1/23/24/48 bytes appended and inserted at the end of every nested chunk with adjusted and stale lengths}; every input through all 7 decoders: accept <=> reference accepts, re-encoding == canonical form; distinct = inputs",
+        rule: "17 annotated base encodings (Shamir share with 0,1,2 y and a partial element; 4 adss shares + the first with 0, 2, 3 in-range y values in its Shamir chunk; 3 reports + one whose share carries 2 y values; chunk; u32) x {every prefix, every length/threshold field x 21 boundary values, every 24-byte element replaced by p-1,p,p+1,2^192-1,0, every offset x 5 byte faults, garbage of 1/23/24/48 bytes appended and inserted at the end of every nested chunk with adjusted and stale lengths}; every input through all 7 decoders: accept <=> reference accepts, re-encoding == canonical form; distinct = inputs",
         gen: |_| {
           let mut v = vec![];
           for b in 0..all_bases().len() {
